@@ -184,7 +184,7 @@ def gen_rawlru(r, cid, nops, opts):
             lines.append("iter %s %s %d" % (kind, script(r, r.rng(0, min(cap, U) + 2)), wb))
         elif name == "clone":
             if not has_alt or r.chance(1, 3):
-                lines.append("clone")
+                lines.append(r.pick(["clone", "clone", "clonefrom"]))
                 has_alt = True
             elif r.chance(1, 2):
                 lines.append("swap")
@@ -243,7 +243,7 @@ def gen_slru(r, cid, nops, opts):
             lines.append(name)
         elif name == "clone":
             if not has_alt or r.chance(1, 3):
-                lines.append("clone")
+                lines.append(r.pick(["clone", "clone", "clonefrom"]))
                 has_alt = True
             elif r.chance(1, 2):
                 lines.append("swap")
@@ -384,7 +384,7 @@ def gen_tinylfu(r, cid, nops, opts):
         elif name == "incks":
             lines.append("incks " + " ".join("%d" % r.rng(0, 6) for _ in range(r.rng(0, 4))))
         elif name == "clone":
-            lines.append(r.pick(["clone", "clone", "swap"]) if any(l == "clone" for l in lines) else "clone")
+            lines.append(r.pick(["clone", "clonefrom", "swap"]) if any(l in ("clone", "clonefrom") for l in lines) else "clone")
     lines.append("end")
     return lines
 
